@@ -200,4 +200,14 @@ def stage_c04gen(ctx, base_env):
     c05_pipeline(ctx, dict(base_env, VERIF_AS_PROP="C04"), "c04gen", env)
 
 
-STAGES = {"c05": stage_c05, "c14": stage_c14, "fuzz": stage_fuzz, "c04gen": stage_c04gen}
+def stage_c07gen(ctx, base_env):
+    """C07 over generated lexers: the C05 compile pipeline with C07's totality oracle as the only oracle."""
+    tconf = ctx["tconf"]
+    if ctx.get("replay_file"):
+        return
+    env = {"VERIF_C05_DEFS": str(tconf.get("gen_defs", 25)), "VERIF_C05_INPUTS": str(tconf.get("gen_inputs", 120)),
+           "VERIF_SEED": str(ctx["seed"] * 100 + 78), "VERIF_AS_PROP": "C07"}
+    c05_pipeline(ctx, dict(base_env, VERIF_AS_PROP="C07"), "c07gen", env)
+
+
+STAGES = {"c05": stage_c05, "c14": stage_c14, "fuzz": stage_fuzz, "c04gen": stage_c04gen, "c07gen": stage_c07gen}
